@@ -165,7 +165,7 @@ def probe_runs(cases):
     bound yields a row per source element."""
     out = []
     for c in cases:
-        if c["src"] < 20000:
+        if c["src"] < 20000 or c["kinds"][0] == "source.ids":     # a lookup by id is not a scan
             continue
         ops = [s["op"] for s in c["prog"]]
         if c["need"] >= 0 and len(ops) <= 3:
@@ -402,6 +402,21 @@ def run(ctx):
             probes = sorted(probes, key=lambda r: (len(r["case"]["prog"]), ctx.rng.random()))[:10]
         else:
             probes = sorted(probes, key=lambda r: ctx.rng.random())[:80]
+        # an aggregation that is refused while rows are still arriving must not strand its feeder: runs in which ONE
+        # element fans out to more rows than the aggregation buffer holds (star / bipartite graphs), so that the rows keep
+        # coming although the source scan stops on the error (seeded change C07e was missed by the class representatives,
+        # which all had cancellable sources and volumes at the buffer size)
+        refused = [c for c in cases if c["kinds"][-1] == "agg.refused" and c["g"]["shape"] in ("star", "bip")
+                   and len(c["flows"]) >= 2 and c["flows"][-2] >= REAL["agg"] + 400 and len(c["prog"]) <= 3
+                   and c["prog"][-2]["op"] in ("out", "in", "both", "outE", "inE", "bothE")]
+        refused.sort(key=lambda c: (len(c["prog"]), c["flows"][-2], case_key(c)))
+        seen_rf = set()
+        for c in refused:
+            sk = (c["g"]["shape"], c["prog"][0]["op"], c["prog"][-2]["op"])
+            if sk not in seen_rf:
+                seen_rf.add(sk)
+                if not any(r["case"] is c and r["cancel"] == -1 for r in runs):
+                    runs.append(dict(case=c, cancel=-1))
         # ---- phase 1: the runs the model of both.Process-as-written predicts to block
         cand = [c for c in cases if "both" in c["kinds"] and c["bothmax"] >= 1400 and len(c["prog"]) <= 3]
         cand.sort(key=lambda c: (len(c["prog"]), c["bothmax"], case_key(c)))
